@@ -509,6 +509,19 @@ class Machine:
         from gstools.krige import base as K
         from gstools.variogram import variogram as V
         est = kw.get("estimator_type", "m")
+        names = {"summate": (G, "_summate"), "summate_incompr": (G, "_summate_incompr"),
+                 "summate_fourier": (G, "_summate_fourier"),
+                 "calc_field_krige": (K, "_calc_field_krige"),
+                 "calc_field_krige_and_variance": (K, "_calc_field_krige_and_variance"),
+                 "unstructured": (V, "_unstructured"), "directional": (V, "_directional"),
+                 "structured": (V, "_structured"), "ma_structured": (V, "_ma_structured")}
+        mod, attr = names[kernel]
+        if not hasattr(mod, attr):
+            # the private wrapper was renamed / inlined: the compiled kernel is still reachable
+            self.ctx.probe("wrapper_missing_used_kernel." + kernel)
+            fn = compiled(kernel)
+            return lambda nt: fn(*[np.array(a) if isinstance(a, np.ndarray) else a
+                                   for a in args], **dict(kw, num_threads=nt))
         fns = {
             "summate": lambda nt: G._summate(*args, num_threads=nt),
             "summate_incompr": lambda nt: G._summate_incompr(*args, num_threads=nt),
@@ -571,27 +584,7 @@ class Machine:
         nt = op.get("threads")
         est = kw.get("estimator_type", "m")
         try:
-            if kernel == "summate":
-                got = G._summate(*args, num_threads=nt)
-            elif kernel == "summate_incompr":
-                got = G._summate_incompr(*args, num_threads=nt)
-            elif kernel == "summate_fourier":
-                got = G._summate_fourier(*args, num_threads=nt)
-            elif kernel == "calc_field_krige":
-                got = K._calc_field_krige(*args, num_threads=nt)
-            elif kernel == "calc_field_krige_and_variance":
-                got = K._calc_field_krige_and_variance(*args, num_threads=nt)
-            elif kernel == "unstructured":
-                got = V._unstructured(*args, estimator_type=est,
-                                      distance_type=kw["distance_type"], num_threads=nt)
-            elif kernel == "directional":
-                got = V._directional(*args, angles_tol=kw["angles_tol"],
-                                     bandwidth=kw["bandwidth"], separate_dirs=kw["separate_dirs"],
-                                     estimator_type=est, num_threads=nt)
-            elif kernel == "structured":
-                got = V._structured(*args, estimator_type=est, num_threads=nt)
-            else:
-                got = V._ma_structured(*args, estimator_type=est, num_threads=nt)
+            got = self._wrapper_call(kernel, args, kw)(nt)
         except ValueError as e:
             if "too small" in str(e) or "!=" in str(e):
                 raise Inapplicable("rejected shapes")
@@ -704,9 +697,12 @@ class Machine:
             ctx.fired("num_threads")
             ref = np.asarray(task())
             rs.setstate(rs_state)
-            saved = [(mod, attr, getattr(mod, attr)) for mod, attr, _ in seams]
+            present = [(mod, attr, kern) for mod, attr, kern in seams if hasattr(mod, attr)]
+            if len(present) != len(seams):
+                ctx.probe("pipeline.seam_missing", len(seams) - len(present))
+            saved = [(mod, attr, getattr(mod, attr)) for mod, attr, _ in present]
             try:
-                for mod, attr, kern in seams:
+                for mod, attr, kern in present:
                     setattr(mod, attr, sim(kern))
                 got = np.asarray(task())
             finally:
